@@ -8,7 +8,7 @@ TRUST = ("Trusted base: Kani 0.68 / CBMC 6.11 / CaDiCaL; the empty tracing shim;
          "the reference models and mock FrameWalker/SymbolProvider in /verif/kani/src; allocation never fails; 64-bit usize. Holds only within the bounds listed in the evidence file.")
 
 CLAIMED = {
-    "C01": ("Bounded model checking of the reader kernels, one function (or a few) per harness, on fully symbolic bounded buffers in both byte orders: location_slice, ensure_count_in_bound, read_stream_list / read_ex_stream_list (incl. the Vec::with_capacity argument on every path), the three string readers, the exception stream incl. print, breakpad info, MinidumpMemory::read and reads from it, the handle data stream (header arithmetic incl. the descriptor-size 0 boundary, object-info record, chain termination), MinidumpMiscInfo::read at the variant boundaries, MinidumpContext::print for all 9 CPU types, and the byte-string kernels of the Linux key/value streams (trim/split). Decides: no panic / overflow / out-of-bounds, termination of the chain walk, and that no allocation is sized from a count the stream cannot back. Not decided: Minidump::read and the directory (BTreeMap), the composite list streams that build hash or range maps, module name/CodeView assembly, Display/Debug formatting, whole-file memory bound.",
+    "C01": ("Bounded model checking of the reader kernels, one function (or a few) per harness, on fully symbolic bounded buffers in both byte orders: location_slice, ensure_count_in_bound, read_stream_list / read_ex_stream_list (incl. the Vec::with_capacity argument on every path), the three string readers, the exception stream incl. print, breakpad info, MinidumpMemory::read and reads from it, the handle data stream (header arithmetic incl. the descriptor-size 0 boundary, object-info record, chain termination), MinidumpMiscInfo::read at the variant boundaries, MinidumpContext::print for all 9 CPU types, MinidumpThread::print incl. the stack dump for any stack length, and the byte-string kernels of the Linux key/value streams (trim/split). Decides: no panic / overflow / out-of-bounds, termination of the chain walk, and that no allocation is sized from a count the stream cannot back. Not decided: Minidump::read and the directory (BTreeMap), the composite list streams that build hash or range maps, module name/CodeView assembly, Display/Debug formatting, whole-file memory bound.",
             "buffers of 6-48 bytes for variable-length readers, full-size records for fixed layouts; list streams of at most 2 elements"),
     "C02": ("Per-record round trip: a reference encoder (independent of minidump-synth and scroll's Pwrite) writes symbolic field values at the transcribed Microsoft/Breakpad offsets in a symbolic byte order; "
             "the real Pread impl parses; every field must come back equal, the wire size must match and a buffer one byte short must be rejected. Covers 33 wire structs (header, directory, descriptors, thread, module, "
